@@ -227,6 +227,10 @@ func (w *World) installBindingReactor() {
 		ca := action.(k8stesting.CreateAction)
 		b := ca.GetObject().(*corev1.Binding)
 		ns := action.GetNamespace()
+		// every read-modify-write of a pod in API truth (binding, status update, delete) is serialised, as the API
+		// server's optimistic concurrency would: otherwise concurrent harness writers lose each other's updates
+		w.delMu.Lock()
+		defer w.delMu.Unlock()
 		obj, err := w.Kube.Tracker().Get(corev1.SchemeGroupVersion.WithResource("pods"), ns, b.Name)
 		if err != nil {
 			return true, nil, apierrors.NewNotFound(podGR, b.Name)
@@ -410,6 +414,8 @@ func (w *World) ListPods() []*corev1.Pod {
 
 // UpdatePod mutates a pod in truth and queues the update event.
 func (w *World) UpdatePod(ns, name string, f func(p *corev1.Pod)) bool {
+	w.delMu.Lock()
+	defer w.delMu.Unlock()
 	old := w.GetPod(ns, name)
 	if old == nil {
 		return false
